@@ -512,6 +512,11 @@ func (d *TD) hook(point string) {
 		key = fmt.Sprintf("%s#%d", point, k)
 		ops, armed = d.gateOps[key]
 	}
+	if !armed && point == "ugs.enter" && d.closingWindow() {
+		// the hand wrapper already holds the closed hand while the table is still publishing the last closed round
+		key = "ugs.enter@closing"
+		ops, armed = d.gateOps[key]
+	}
 	var ch chan struct{}
 	if armed {
 		delete(d.gateOps, key)
@@ -676,6 +681,17 @@ func (d *TD) settle() string {
 		}
 		time.Sleep(100 * time.Microsecond)
 	}
+}
+
+func (d *TD) closingWindow() bool {
+	gm := d.te.GetGame()
+	t := d.te.GetTable()
+	if gm == nil || t == nil || t.State == nil {
+		return false
+	}
+	gs := gm.GetGameState()
+	pub := t.State.GameState
+	return gs != nil && gs.Status.CurrentEvent == "GameClosed" && pub != nil && pub.Status.CurrentEvent != "GameClosed"
 }
 
 // retryArmed: the scenario waits for tableGameOpen's retry loop (3 s sleeps with the engine lock held)
